@@ -38,7 +38,7 @@ func fieldsRead(fn *ssa.Function, structName string, into map[string]bool) {
 }
 
 func propC06(c *Check) {
-	c.Explain = "Decides the structure of canonical transaction encoding: (1) unmarshalVersionedTransaction accepts only past the size gate (before decoding) and bytes.Equal(re-encoding, input), where the re-encoder marshalWithCapacity -> EncodeTransaction is the same function Marshal reaches, so 'accepted bytes re-encode to themselves' holds by construction on every path; (2) Decoder.DecodeTransaction is called only from that function (no decode path bypasses the canonical gate); (3) order leak: every map iteration in the encoder call tree only fills a slice that is sorted before anything is emitted (EncodeSignatures sorts by index); (4) field coverage: payloadMarshal builds SignedTransaction{Transaction: ver.Transaction} and nothing else (no signatures in the hash payload); every exported field of Transaction, Input, Output, DepositData, MintData and WithdrawalData is read by EncodeTransaction/EncodeInput/EncodeOutput; PayloadHash is Blake3(PayloadMarshal()); (5) length-prefix discipline: every Write of a variable-length operand in those encoders is immediately preceded by a WriteInt/WriteUint32 of len(<the same operand>), fixed-size operands (array slices, magic/null markers, two-byte tags) are exempt, and optional members are introduced by the magic/null marker; (6) error discipline of the transaction decoders is shared with C07 (every Decoder read error is tested or returned)."
+	c.Explain = "Decides the structure of canonical transaction encoding: (1) unmarshalVersionedTransaction accepts only past the size gate (before decoding) and bytes.Equal(re-encoding, input), where the re-encoder marshalWithCapacity -> EncodeTransaction is the same function Marshal reaches, so 'accepted bytes re-encode to themselves' holds by construction on every path; (2) Decoder.DecodeTransaction is called only from that function (no decode path bypasses the canonical gate); (3) order leak: every map iteration in the encoder call tree only fills a slice that is sorted before anything is emitted (EncodeSignatures sorts by index); (4) field coverage: payloadMarshal builds SignedTransaction{Transaction: ver.Transaction} and nothing else (no signatures in the hash payload); every exported field of Transaction, Input, Output, DepositData, MintData and WithdrawalData is read by EncodeTransaction/EncodeInput/EncodeOutput; PayloadHash is Blake3(PayloadMarshal()); (5) length-prefix discipline: every Write of a variable-length operand in those encoders is immediately preceded by a WriteInt/WriteUint32 of len(<the same operand>), fixed-size operands (array slices, magic/null markers, two-byte tags) are exempt, and optional members are introduced by the magic/null marker; (6) error discipline of the transaction decoders is shared with C07 (every Decoder read error is tested or returned). (7) every value returned by payloadMarshal is the encoding of the stripped literal (no path returns the signature-carrying encoding)."
 	c.NotCov = "collision resistance; value-level decode(encode(x)) == x beyond what the canonical re-encoding gate gives for accepted bytes."
 	c.Floor(14)
 	w := c.W
